@@ -12,6 +12,10 @@ CHECKS = {
    text="TLC model-checks spec/TempVM.tla (Isolation, LifecycleIsLocal, FreshIsBase as action properties, BaseVisibleEverywhere) and prints its state graph; every path up to the bound (1 base + 2 temporary VMs, deliberate name collisions) is replayed on real VM/TempVM objects — definitions made through a parser bound to the VM as requests do — with the resolve table of every live VM compared after every step through the Go API and through scripts (class_exists/new/call); long walks (40 steps, 4 temps, 8 names) come from TLC -simulate with a history variable.",
    note="Trusted: TLC + Json module; resolvability (not which colliding definition wins) is the compared observable.",
    tech="TLA+ spec (TempVM.tla) checked by TLC; state-graph paths and simulated walks replayed on real VMs"),
+ "C09": dict(cat="model_checking", ref="§5 C09",
+   text="TLC model-checks spec/Channel.tla, the mechanism of Send/Receive/Close at the granularity of the code's yield points (locks, done channel, Go channel wait queues) for NoCrash, Conservation, AtMostOnce, PerSenderFIFO, LateSendFails; a controlled scheduler parks real goroutines at the verif hooks and walks the model's state graph, following whichever outcome the real code produces (online conformance); every recorded call/return history (forced walks + free-running -race stress with GOMAXPROCS 1..16) is validated by TLC against ChannelRef (spec/ChannelLin.tla: linearizable FIFO queue with close). The pinned design (Design=none) is kept as a named deviation that TLC refutes.",
+   note="Trusted: goroutine ids from runtime.Stack, FIFO wait queues of Go channels, the race detector as observation instrument. A disagreement about blocking without a property-level symptom is exit 2, never a violation.",
+   tech="TLA+ mechanism spec (Channel.tla) checked by TLC + controlled-scheduler conformance walk; recorded histories trace-validated against ChannelLin.tla"),
 }
 NOT_YET = "check not built yet in this round (planned: TLA+ spec + conformance binding, see DESIGN.md §5)"
 def main():
@@ -48,7 +52,7 @@ def main():
     }
     json.dump(m, open(os.path.join(HERE, "MANIFEST.json"), "w"), indent=1, ensure_ascii=False)
     print("wrote MANIFEST.json with", len(checks), "checks")
-HOOK_COMMITS = []
+HOOK_COMMITS = ["ac1b516"]
 NA = {}
 if __name__ == "__main__":
     main()
